@@ -331,8 +331,59 @@ def _heavy_worker(sub, item):
     _soft_standin(sub, f"C08/heavy/{process}/{kind}/ihq={ihq}/order={order}", case, sy)
 
 
+def sec_selfcheck(rep):
+    """Canaries for the limit engine: known limits must come out, wrong ones must not, and what
+    the engine cannot decide must be OutOfReach (never a value)."""
+    from pvc.limit import LOG_EPS
+    from pvc.ratfun import Normaliser
+    from pvc.sym import fn
+
+    e, z = R.var("eps"), R.var("z")
+    pre = [e > 0, e < 1, z > 0, z < 1]
+    sq = fn("sqrt", 1 + 4 * e)
+    good = [
+        ("log(z+eps) -> log z", fn("log", z + e), fn("log", z)),
+        ("eps*log(eps) -> 0", e * fn("log", e), R.const(0)),
+        ("log(eps*z/(1+eps)) -> LOG_EPS + log z", fn("log", e * z / (1 + e)), LOG_EPS + fn("log", z)),
+        ("(sqrt(1+4eps)-1)/eps -> 2  via 0/0 cancellation is refused", None, None),
+        ("log(1+2eps-sqrt(1+4eps)) -> 2 LOG_EPS + log 2  (conjugate rule: (1+2e)^2-(1+4e) = 4e^2)", fn("log", 1 + 2 * e - sq), 2 * LOG_EPS + fn("log", R.const(2))),
+        ("li2(1/(1+eps)) -> pi^2/6", fn("li2", 1 / (1 + e)), R.const(3.141592653589793) ** 2 / 6),
+        ("li2(-1/eps) -> -pi^2/6 - LOG_EPS^2/2", fn("li2", -1 / e), -(R.const(3.141592653589793) ** 2) / 6 - LOG_EPS * LOG_EPS / 2),
+    ]
+    for name, t, exp in good:
+        if t is None:
+            try:
+                v = limit0((sq - 1) / e, e, pre)
+                ok = False
+                detail = f"returned {v!r:.80} instead of refusing"
+            except OutOfReach as ex:
+                ok, detail = True, f"OutOfReach: {ex}"
+            rep.add(Ob(f"C08/selfcheck/{name}", "canary", PROVED if ok else "error", "limit", 0, detail))
+            continue
+        try:
+            got = limit0(R.lift(t), e, pre)
+            st = Normaliser(pre).identity(R.lift(got), R.lift(exp), 1e-12)[0]
+            ok, detail = st == "proved", f"{got!r:.100}"
+        except Exception as ex:  # noqa
+            ok, detail = False, f"{type(ex).__name__}: {ex}"
+        rep.add(Ob(f"C08/selfcheck/{name}", "canary", PROVED if ok else "error", "limit", 0, detail))
+    wrong = [
+        ("log(z+eps) is NOT log(2z) in the limit", fn("log", z + e), fn("log", 2 * z)),
+        ("log(eps) does not vanish", fn("log", e) * z, R.const(0)),
+        ("(1+eps)^2 z -> z, not 2z", (1 + e) ** 2 * z, 2 * z),
+    ]
+    for name, t, exp in wrong:
+        try:
+            got = limit0(R.lift(t), e, pre)
+            st = Normaliser(pre).identity(R.lift(got), R.lift(exp), 1e-12)[0]
+            ok, detail = st != "proved", f"{got!r:.100}"
+        except Exception as ex:  # noqa
+            ok, detail = False, f"{type(ex).__name__}: {ex}"
+        rep.add(Ob(f"C08/selfcheck/{name}", "canary", PROVED if ok else "error", "limit", 0, detail))
+
+
 def run(rep, tier, seed, only=None):
-    secs = {"heavy": lambda: sec_heavy(rep, tier), "intrinsic": lambda: sec_intrinsic(rep, tier)}
+    secs = {"heavy": lambda: sec_heavy(rep, tier), "intrinsic": lambda: sec_intrinsic(rep, tier), "selfcheck": lambda: sec_selfcheck(rep)}
     for name, f in secs.items():
         if only and only not in name:
             continue
